@@ -551,6 +551,26 @@ def m_c01(out, base) -> list[Violation]:
     return vs
 
 
+# ---------------------------------------------------------------------------------------------- C16
+def m_c16(out, base) -> list[Violation]:
+    """whatever the delivery order, the crash point and the recovery sweeps, every execution of a task sees the same
+    upstream data as in the in-order uninterrupted run (the ancestors' outputs merged at plan time)"""
+    vs = []
+    if script_shifted(out) or not (out["quiescent"] and base["quiescent"] and halt_free(base)):
+        return vs
+    sa, sb = seen_ctx(out), seen_ctx(base)
+    for k, ctxs in sa.items():
+        want = sb.get(k, [])
+        for c in ctxs:
+            if want and c not in want:
+                vs.append(Violation(
+                    what=f"task {k} ran with upstream data {c}; the in-order uninterrupted run gives it {want[0]} "
+                         f"(case {out['case'].get('kind')}/{out['case'].get('what') or out['case'].get('policy') or out['case'].get('drain')})",
+                    signature="upstream-data-differs", replay=_replay(out)))
+                return vs
+    return vs
+
+
 # ---------------------------------------------------------------------------------------------- C11
 def m_c11(out) -> list[Violation]:
     """at every durable commit: two stages sharing a mutex key are never RUNNING together; at most one stage of a
